@@ -1,5 +1,5 @@
 (* Executor ops for C08/C09: scte.decode, scte.reencode, scte.build, ser.scte *)
-From Gots Require Import Base.Prelude Exec.ExecBase Model.Pts Model.Scte Model.ScteEnc Spec.Scte35Spec.
+From Gots Require Import Base.Prelude Exec.ExecBase Model.Pts Model.Scte Model.ScteEnc Spec.Scte35Spec Proofs.ScteNormalB.
 Import Scte.
 
 (* ---------------- getter view (what goexec prints from the real getters) ---------------- *)
@@ -202,6 +202,15 @@ Definition ops : list op := [
   ("scte.build", fun a => match a with
      | [VL []; VL l] => match p_list p_sigop l with Some ops => build_reply (Ok create_scte35) ops | None => vbad end
      | [VL [VB b]; VL l] => match p_list p_sigop l with Some ops => build_reply (new_scte35 b) ops | None => vbad end
+     | _ => vbad end);
+  (* generator aid (modelexec only): is the state after the script inside the hypotheses of C09_encode_canonical?
+     ScteNormalB.isnormal_ok : isnormal st = true -> normal (foreign_of st) st *)
+  ("scte.isnormal", fun a => match a with
+     | [VL []; VL l] => match p_list p_sigop l with Some ops => vbool (isnormal (run_script create_scte35 ops)) | None => vbad end
+     | [VL [VB b]; VL l] => match p_list p_sigop l, new_scte35 b with
+                            | Some ops, Ok s0 => vbool (isnormal (run_script s0 ops))
+                            | Some _, _ => vbool false
+                            | None, _ => vbad end
      | _ => vbad end);
   ("scte.crc", fun a => match a with [VB b] => VB (crc_model b) | _ => vbad end);
   ("ser.scte", fun a => match a with
